@@ -228,6 +228,32 @@ func writeGTCodec(repoRoot, srcRoot, verifRoot string, check bool) int {
 	return stale
 }
 
+// smallPoseidonPkgs: the Poseidon2 packages of the small fields, whose compression function takes half a state
+func smallPoseidonPkgs(srcRoot string) map[string]string {
+	out := map[string]string{}
+	files, _ := filepath.Glob(filepath.Join(srcRoot, "field", "*", "poseidon2", "poseidon2.go"))
+	for _, f := range files {
+		b, _ := os.ReadFile(f)
+		if strings.Contains(string(b), "desiredLen := n * fr.Bytes") {
+			dir := filepath.Dir(f)
+			out["./"+strings.TrimPrefix(dir, srcRoot+"/")] = filepath.Base(filepath.Dir(dir))
+		}
+	}
+	return out
+}
+
+func writeSmallPoseidon(repoRoot, srcRoot, verifRoot string, check bool) int {
+	t, err := os.ReadFile(filepath.Join(verifRoot, "contracts", "hash", "poseidon2_small.go.tmpl"))
+	if err != nil {
+		return 0
+	}
+	stale := 0
+	for pk, field := range smallPoseidonPkgs(srcRoot) {
+		stale += installText(filepath.Join(repoRoot, strings.TrimPrefix(pk, "./"), "zz_verif_contracts_compressor.go"), strings.ReplaceAll(string(t), "FIELD", field), check)
+	}
+	return stale
+}
+
 func writeStream(repoRoot, srcRoot string, check bool) int {
 	stale := 0
 	for _, pk := range marshalPkgs(srcRoot) {
